@@ -19,7 +19,7 @@ PROPS["C16"] = dict(
     lean_props=["SeaQ.Props.C16"],
     lean_obligations=["SeaQ.Lemmas.TokenTables"],
     technique="Lean 4 proof (induction on the input / on quoted units) over a model of src/token.rs whose character-class tables are regenerated from the source; model tied by exhaustive + random differential run against the real Tokenizer",
-    level_text="Machine-checked proof, for every string and every alphabetic predicate, that the tokenizer model is lossless, yields only non-empty tokens, terminates within |s| steps, and scans delimiter·units·delimiter as exactly one Quoted token (so a mark inside quotes is never punctuation). The class tables are regenerated from src/token.rs on every run (table side conditions re-proved by decide); the hand-modelled control flow is compared with the real Tokenizer on all strings over a 14-symbol alphabet up to length 5 (quick) / 6 (thorough) plus random Unicode.",
+    level_text="Machine-checked proof, for every string and every alphabetic predicate, that the tokenizer model is lossless, yields only non-empty tokens, terminates within |s| steps, and scans delimiter·units·delimiter as exactly one Quoted token (so a mark inside quotes is never punctuation). The class tables are regenerated from src/token.rs on every run (table side conditions re-proved by decide); the hand-modelled control flow is compared with the real Tokenizer on all strings over a 14-symbol alphabet and over the 13 characters SQL comments / casts / dollar quotes are made of, up to length 5 (quick) / 6 (thorough), plus random Unicode with special code points (BOM, NUL, Unicode spaces, separators) at the edges.",
     level_note="Trusted: Lean kernel (+propext, Quot.sound); the syn-based translator for the character classes; the differential run for the loops of space/unquoted/quoted/punctuation/next/unquote (modelled, not verified); Rust's char::is_alphabetic enters only as a parameter (theorems hold for any predicate; the harness passes the real classification of the characters in each case).",
     design_ref="§6 C16",
     scope="all strings (unbounded), all alphabetic predicates",
@@ -65,7 +65,7 @@ PROPS["C06"] = dict(
     lean_obligations=[],
     technique="Lean 4 proof (mutual structural induction over condition trees, list induction over call histories, Kleene-logic case analysis) over a hand-written model of Condition::add/not/add_option/to_simple_expr and ConditionHolder::add_condition; model tied by comparing the parse tree of the rendered predicate with the model's expression on bounded-exhaustive and random histories; 3-valued truth-table oracle on the real crate",
     level_text="Machine-checked proof, for every condition tree (any depth/width, every negate flag, empty groups, optional members) and every history of condition-adding calls, that what the holder renders is equivalent under SQL three-valued logic to the AND of the supplied conditions (any = OR, empty any = FALSE, all = AND, empty all = TRUE, negated = NOT), and that no predicate is rendered iff no condition was given. Every rewrite the builder performs while adding (single-member unwrapping, all+all merging, wrapping) is inside the theorem. Carried over to the statement renderer (Props/C06Stmt): for every condition tree and dialect the statement model's condition renderer is the expression renderer applied to to_simple_expr, which is the expression the abstract model evaluates.",
-    level_note="Trusted: Lean kernel; the hand-written model of the five functions in src/query/condition.rs (modelled, not verified: tied by the differential run through 8 statement positions x 3 backends, comparing the *parse tree* of the rendered predicate under an independent SQL predicate parser with the model's tree); Kleene's K3 as the meaning of SQL AND/OR/NOT; the chain mode (doc-hidden and_or_where) is not modelled.",
+    level_note="Trusted: Lean kernel; the hand-written model of the five functions in src/query/condition.rs (modelled, not verified: tied by the differential run through 16 statement positions (WHERE / HAVING / ON of every join type / CASE WHEN / UPDATE .. FROM / ON CONFLICT) x 3 backends, comparing the *parse tree* of the rendered predicate under an independent SQL predicate parser with the model's tree); Kleene's K3 as the meaning of SQL AND/OR/NOT; the chain mode (doc-hidden and_or_where) is not modelled.",
     design_ref="§6 C06",
     scope="all condition trees x all call histories x all 3-valued assignments",
 )
